@@ -1,5 +1,7 @@
 import CifModel.Lemmas.Serialize
 import CifModel.Lemmas.Columns
+import CifModel.Lemmas.NumbRoundtrip
+import CifModel.Lemmas.NumbAutoinit
 /-
   Property C07 — values stored in a CIF are read back identical.
 
@@ -78,16 +80,109 @@ theorem C07_cex_empty_digits (q : Bool) (t : Str) (neg : Bool) (su : Option (Lis
     ∃ row, toColumns (.numb q t neg [] su sc) = some row ∧ checks row = false :=
   empty_digits_rejected q t neg su sc
 
-/-- FULL statement of "numbers inside lists/tables are rebuilt by re-parsing their text": for every number value the API
-    can produce — by `cif_value_parse_numb`, `cif_value_init_numb` or `cif_value_autoinit_numb` (`produced`) —
-    `parseNumb text = some fields`.  The `init_numb`/`autoinit_numb` half is group gB's `C10_init_text_roundtrip`
-    (formatting followed by parsing gives the fields back); it is not available on this branch. -/
-def C07_numb_in_list_full (produced : V → Prop) : Prop :=
-  ∀ v, produced v → C07_numbsConsistent parseFields v
+/-! ### numbers inside lists and tables are rebuilt by re-parsing their text -/
 
-/-- PARTIAL (the `cif_value_parse_numb` half): every number `cif_value_parse_numb` / the char→numb coercion produces
-    from a text is consistent, hence any list or table of such numbers is read back identical from its serialised form.
-    Missing for the full statement: the same fact for numbers built by `cif_value_init_numb` / `autoinit_numb`. -/
+/-- the number values the API can produce: by `cif_value_parse_numb` / the char→numb coercion of
+    `cif_value_get_number` (`numbOfText`), by `cif_value_init_numb` (which `cif_value_create(CIF_NUMB_KIND)` and
+    `cif_value_init(…, CIF_NUMB_KIND)` call) and by `cif_value_autoinit_numb`, for every double, every su, every scale,
+    rule and value of libm's MSP — each possibly followed by `cif_value_set_quoted` (any quoted flag `q'`) -/
+inductive C07_numbProduced : V → Prop
+  | parsed (q : Bool) (t : Str) (f : Model.Numb.NumbFields) (h : Model.Numb.parseNumb t = some f) :
+      C07_numbProduced (Model.Numb.numbOfText q t)
+  | init (val su : Model.Numb.Bin) (scale maxLead msp : Int) (q q' : Bool) (t : Str) (neg : Bool) (digits : List Nat)
+      (suD : Option (List Nat)) (sc : Int)
+      (h : Model.Numb.initNumb val su scale maxLead msp = .ok (.numb q t neg digits suD sc)) :
+      C07_numbProduced (.numb q' t neg digits suD sc)
+  | autoinit (val su : Model.Numb.Bin) (rule : Nat) (msp : Int) (q q' : Bool) (t : Str) (neg : Bool) (digits : List Nat)
+      (suD : Option (List Nat)) (sc : Int)
+      (h : Model.Numb.autoinitNumb val su rule msp = .ok (.numb q t neg digits suD sc)) :
+      C07_numbProduced (.numb q' t neg digits suD sc)
+
+mutual
+  /-- a value the API can construct: every number in it, at any depth, was produced by one of the number functions -/
+  def C07_constructible : V → Prop
+    | .numb q t n d su sc => C07_numbProduced (.numb q t n d su sc)
+    | .lst vs => C07_constructibleList vs
+    | .tbl es => C07_constructibleEntries es
+    | _ => True
+  def C07_constructibleList : List V → Prop
+    | [] => True
+    | v :: vs => C07_constructible v ∧ C07_constructibleList vs
+  def C07_constructibleEntries : List (Str × Str × V) → Prop
+    | [] => True
+    | (_, _, v) :: es => C07_constructible v ∧ C07_constructibleEntries es
+end
+
+/-- every produced number is what `cif_value_parse_numb` makes of its text -/
+theorem C07_numb_produced_consistent (v : V) (h : C07_numbProduced v) : C07_numbsConsistent parseFields v := by
+  cases h with
+  | parsed q t f hp =>
+    unfold C07_numbsConsistent Model.Numb.numbOfText
+    have : Model.Numb.parseNumb (Model.Numb.cstr t) = some f := by
+      unfold Model.Numb.parseNumb at hp ⊢
+      rw [cstr_idem]; exact hp
+    simp [hp, numbsParse, parseFields, this]
+  | init val su scale maxLead msp q q' t neg digits suD sc hi =>
+    have := Lemmas.NumbRoundtrip.initNumb_roundtrip val su scale maxLead msp q t neg digits suD sc hi
+    simp [C07_numbsConsistent, numbsParse, parseFields, this]
+  | autoinit val su rule msp q q' t neg digits suD sc ha =>
+    have : Model.Numb.parseNumb t = some ⟨neg, digits, suD, sc⟩ := by
+      unfold Model.Numb.autoinitNumb at ha
+      split at ha
+      · cases ha
+      · split at ha
+        · exact Lemmas.NumbRoundtrip.initNumb_roundtrip _ _ _ _ _ q t neg digits suD sc ha
+        · exact Lemmas.NumbRoundtrip.initNumb_roundtrip _ _ _ _ _ q t neg digits suD sc ha
+    simp [C07_numbsConsistent, numbsParse, parseFields, this]
+
+mutual
+  /-- **C07_numb_in_list** (full strength): in every value the API can construct — any nesting, numbers made by
+      `parse_numb`, `init_numb`, `autoinit_numb`, `create`, `init` — every number is rebuilt exactly by re-parsing its text -/
+  theorem C07_numb_in_list (v : V) (h : C07_constructible v) : C07_numbsConsistent parseFields v := by
+    cases v with
+    | unk => rfl
+    | na => rfl
+    | chr q t => rfl
+    | numb q t n d su sc => exact C07_numb_produced_consistent _ (by simpa [C07_constructible] using h)
+    | lst vs =>
+      have := C07_numb_in_list_list vs (by simpa [C07_constructible] using h)
+      simpa [C07_numbsConsistent, numbsParse] using this
+    | tbl es =>
+      have := C07_numb_in_list_entries es (by simpa [C07_constructible] using h)
+      simpa [C07_numbsConsistent, numbsParse] using this
+  theorem C07_numb_in_list_list (vs : List V) (h : C07_constructibleList vs) : numbsParseList parseFields vs = true := by
+    cases vs with
+    | nil => rfl
+    | cons v vs =>
+      simp only [C07_constructibleList] at h
+      have h1 := C07_numb_in_list v h.1
+      have h2 := C07_numb_in_list_list vs h.2
+      simp only [C07_numbsConsistent] at h1
+      simp [numbsParseList, h1, h2]
+  theorem C07_numb_in_list_entries (es : List (Str × Str × V)) (h : C07_constructibleEntries es) :
+      numbsParseEntries parseFields es = true := by
+    cases es with
+    | nil => rfl
+    | cons e es =>
+      obtain ⟨k, ko, v⟩ := e
+      simp only [C07_constructibleEntries] at h
+      have h1 := C07_numb_in_list v h.1
+      have h2 := C07_numb_in_list_entries es h.2
+      simp only [C07_numbsConsistent] at h1
+      simp [numbsParseEntries, h1, h2]
+end
+
+/-- … hence **every constructible value survives serialisation**, whatever its depth and whichever number functions
+    built its numbers -/
+theorem C07_constructible_roundtrip (v : V) (h : C07_constructible v) :
+    deserialize parseFields (ser v) = some (v, []) :=
+  deserialize_ser parseFields v (C07_numb_in_list v h)
+
+/-- the number `cif_value_create(CIF_NUMB_KIND)` / `cif_value_init(…, CIF_NUMB_KIND)` make is consistent as well -/
+theorem C07_default_numb_consistent : C07_numbsConsistent parseFields (.numb false (a!"0") false [0] none 0) := by
+  decide +kernel
+
+/-- the `cif_value_parse_numb` case on its own (kept from the first version of this file) -/
 theorem C07_numb_in_list_partial (q : Bool) (t : Str) :
     C07_numbsConsistent parseFields (Model.Numb.numbOfText q t) := by
   unfold C07_numbsConsistent Model.Numb.numbOfText
@@ -120,6 +215,17 @@ example : wfValue parseFields C07_sample = true := by decide +kernel
 example : deserialize parseFields (ser C07_sample) = some (C07_sample, []) :=
   (C07_serialize_roundtrip parseFields C07_sample (by decide +kernel)).1
 example : wfValue parseFields (.numb true (a!"-12(3)") true [1, 2] (some [3]) 0) = true := by decide +kernel
+-- constructible values exist: a parsed number, and containers of them
+theorem C07_constructible_parsed (q : Bool) (t : Str) (f : Model.Numb.NumbFields) (h : Model.Numb.parseNumb t = some f) :
+    C07_constructible (Model.Numb.numbOfText q t) := by
+  have hp := C07_numbProduced.parsed q t f h
+  unfold Model.Numb.numbOfText at hp ⊢
+  rw [h] at hp ⊢
+  simpa [C07_constructible] using hp
+example : C07_constructible (Model.Numb.numbOfText true (a!"-1.50e3(2)")) :=
+  C07_constructible_parsed _ _ ⟨true, [1, 5, 0], some [2], -3 + 2⟩ (by decide +kernel)
+example : C07_constructible (.lst [.chr true (a!"x"), .tbl [((a!"k"), (a!"k"), .lst [.unk, .na])]]) := by
+  simp [C07_constructible, C07_constructibleList, C07_constructibleEntries]
 -- the hypotheses of C07_buf_write_terminates hold for the first growing write of a fresh buffer
 example : ∃ p, growLoop 2000 512 (500 + 1500) = some p ∧ 2000 ≤ p := C07_buf_write_terminates 512 500 1500 2000 (by decide) (by decide) (by decide)
 -- the consistency hypothesis can fail: a number whose fields are not those of its text
